@@ -6,7 +6,10 @@ import (
 	"fmt"
 	"math/big"
 	"os"
+	"runtime"
 	"strings"
+	"sync"
+	"sync/atomic"
 
 	"github.com/mmcloughlin/addchain"
 )
@@ -79,6 +82,37 @@ func (g *Gen) Line(fields ...string) {
 }
 
 func (g *Gen) Count(k string) { g.Stats[k]++ }
+
+// Parallel runs the tasks on a worker pool and writes the lines they return in task
+// order, so the output is independent of scheduling. Tasks must not touch g.
+func (g *Gen) Parallel(tasks []func() []string) {
+	workers := runtime.NumCPU()
+	if workers > 12 {
+		workers = 12
+	}
+	res := make([][]string, len(tasks))
+	var wg sync.WaitGroup
+	next := int64(-1)
+	for w := 0; w < workers; w++ {
+		wg.Add(1)
+		go func() {
+			defer wg.Done()
+			for {
+				i := int(atomic.AddInt64(&next, 1))
+				if i >= len(tasks) {
+					return
+				}
+				res[i] = tasks[i]()
+			}
+		}()
+	}
+	wg.Wait()
+	for _, fields := range res {
+		if fields != nil {
+			g.Line(fields...)
+		}
+	}
+}
 
 func (g *Gen) corpus(path string) {
 	b, err := os.ReadFile(path)
